@@ -247,6 +247,16 @@ pub fn main(args: &Args) {
                 let k = key_of(msg, arg);
                 fed.retain(|(kk, _)| kk.as_integer().and_then(|i| i64::try_from(i).ok()) != Some(k));
             }
+            // a byte-string member of arbitrary length by the specification, given the length in arg ("member:len");
+            // "indef": the same bytes as an indefinite-length byte string of two chunks (what another encoder may send)
+            "bytes-len" => {
+                let (member, len) = arg.split_once(':').unwrap();
+                let k = key_of(msg, member);
+                if let Some(pos) = fed.iter().position(|(kk, _)| kk.as_integer().and_then(|i| i64::try_from(i).ok()) == Some(k)) {
+                    let n: usize = len.parse().unwrap();
+                    fed[pos].1 = Cbor::Bytes((0..n).map(|i| (i * 31 + 7) as u8).collect());
+                }
+            }
             // the options member present, its map carrying only the members named in arg ("rk,uv", "up=false", "")
             "options-partial" => {
                 let k = key_of(msg, "options");
@@ -268,7 +278,13 @@ pub fn main(args: &Args) {
                 e["de"] = json!("ok");
                 // the message types have no PartialEq: two values are equal when their serialisations AND their Debug
                 // renderings agree (the latter catches a member that both directions drop consistently)
-                e["rt"] = json!(if variant == "no-options" || variant == "options-partial" { true } else { again == plain && again_dbg == plain_dbg });
+                e["rt"] = json!(if variant == "no-options" || variant == "options-partial" {
+                    true
+                } else if variant == "bytes-len" {
+                    again == fed_bytes
+                } else {
+                    again == plain && again_dbg == plain_dbg
+                });
                 if let Some((up, rk, uv)) = options_of(msg, &fed_bytes) {
                     e["up"] = json!(up);
                     e["rk"] = json!(rk);
